@@ -64,7 +64,7 @@ PART = 160   # truncation offsets per plan
 def budget(tier):
     if tier == "quick":
         return {"runs": 12000, "chunk": 40, "wall_cap": 400.0, "det_sample": 6}
-    return {"runs": 60000, "chunk": 50, "wall_cap": 3300.0, "det_sample": 30}
+    return {"runs": 600000, "chunk": 100, "wall_cap": 3300.0, "det_sample": 30}
 
 
 # ---------------------------------------------------------------------------- corpus
